@@ -719,7 +719,10 @@ def render_fn(idx, fs, table, ctx):
         if found < 0:
             raise ExtractError("%s::%s: hint anchor %r not found" % (fs.anchor, fs.name, prefix))
         if txt.startswith("BEFORE "):
-            inserts.setdefault(found, []).append("\nproof { " + txt[7:] + " }\n")
+            if txt[7:].startswith("raw "):
+                inserts.setdefault(found, []).append("\n" + txt[11:] + "\n")   # ghost declarations that must outlive the block
+            else:
+                inserts.setdefault(found, []).append("\nproof { " + txt[7:] + " }\n")
             rules.fired.add("R9-anchored-hint")
             continue
         # end of that statement: next `;` at relative depth 0
